@@ -366,8 +366,8 @@ def apply_edit(f, op):
     """Apply one edit operation through the public attribute API (STABLE).  Ops that do not apply to the flow at
     hand (e.g. a response edit while response is None) are no-ops, so every generated op is applicable.
 
-    common: ["comment", s] ["marked", s] ["meta", key, value] ["meta_del", key] ["meta_inplace", key, value] (mutates the
-              list/dict stored under key in place) ["error", None|[msg, ts]]
+    common: ["comment", s] ["marked", s] ["meta", key, value] ["meta_del", key] ["meta_inplace", key|index, value] (mutates the
+              list/dict stored under key -- or under the index-th existing key -- in place) ["error", None|[msg, ts]]
             ["intercepted", b] ["is_replay", v] ["ts", x] ["client", attr, value] ["server", attr, value]
               (attr in sni, alpn, error, tls, cipher, timestamp_end, tls_version)
     http:   ["req", attr, value] / ["resp", attr, value]  attr in method, path, host, port, scheme, authority,
@@ -393,6 +393,11 @@ def apply_edit(f, op):
     elif k == "meta_del":
         f.metadata.pop(op[1], None)
     elif k == "meta_inplace":
+        key = op[1]
+        if isinstance(key, int):  # index into the existing keys (so that nested values present at backup time are hit)
+            keys = sorted(f.metadata, key=repr)
+            key = keys[key % len(keys)] if keys else "k"
+        op = [op[0], key, op[2]]
         cur = f.metadata.get(op[1])
         if isinstance(cur, list):
             cur.append(copy.deepcopy(op[2]))
@@ -669,7 +674,7 @@ def edits(kind, small=True):
         st.tuples(st.just("comment"), text), st.tuples(st.just("marked"), text),
         st.tuples(st.just("meta"), st.sampled_from(["k", "j", "websocket"]), meta_value),
         st.tuples(st.just("meta_del"), st.sampled_from(["k", "j", "websocket"])),
-        st.tuples(st.just("meta_inplace"), st.sampled_from(["k", "j"]), st.one_of(st.integers(0, 3), small_binary)),
+        st.tuples(st.just("meta_inplace"), st.one_of(st.sampled_from(["k", "j"]), st.integers(0, 3)), st.one_of(st.integers(0, 3), small_binary)),
         st.tuples(st.just("error"), error), st.tuples(st.just("intercepted"), st.booleans()),
         st.tuples(st.just("is_replay"), st.sampled_from([None, "request", "response"])),
         st.tuples(st.just("ts"), ts),
